@@ -58,14 +58,25 @@ def compile_subject(c, subj, entry):
                 name = subj[1]
                 parts = boot.corpus()[name]
                 asts = [c.parser.parse(p_) for p_ in parts]
-                ins = c.transform_insn(name, ParsedInsn(name, asts, parts))
+                if entry == "compile_insn":
+                    c.parsed_insns[name] = ParsedInsn(name, asts, parts)
+                    ins = c.compile_insn(name)
+                else:
+                    ins = c.transform_insn(name, ParsedInsn(name, asts, parts))
                 return ("ok", [normalise(t) for t in ins.rzil], [sorted(m) for m in ins.meta])
             text = subj[1]
             if entry == "c_stmt":
                 return ("ok", [normalise(c.compile_c_stmt(text))], None)
             _cnt[0] += 1
-            name = f"GEN_c14_{_cnt[0]}"
-            ins = c.transform_insn(name, ParsedInsn(name, [c.parser.parse(text)], [text]))
+            # names are reused on purpose: compiling another behaviour under a name seen before (re-parsed shortcode,
+            # the same name on the other instance) must not return what was compiled under that name earlier
+            name = f"GEN_c14_{_cnt[0] % 5}"
+            parsed = ParsedInsn(name, [c.parser.parse(text)], [text])
+            if entry == "compile_insn":
+                c.parsed_insns[name] = parsed
+                ins = c.compile_insn(name)
+            else:
+                ins = c.transform_insn(name, parsed)
             return ("ok", [normalise(t) for t in ins.rzil], [sorted(m) for m in ins.meta])
     except Exception as e:
         return ("exc", type(e).__name__)
@@ -150,13 +161,14 @@ def machine_worker(seed, nexamples, steps, subjects, baselines):
                     fresh()   # do not let one corrupted history poison the following ones
                     return
 
-        @rule(inst=st.integers(0, 1), subj=subj_st, entry=st.sampled_from(["c_stmt", "insn"]))
+        @rule(inst=st.integers(0, 1), subj=subj_st, entry=st.sampled_from(["c_stmt", "insn", "compile_insn"]))
         def compile_ok(self, inst, subj, entry):
-            if subj[0] == "insn":
+            if subj[0] == "insn" and entry == "c_stmt":
                 entry = "insn"
+            p.count("entry:" + entry)
             self._do(("compile", inst, list(subj), entry), subj, entry)
 
-        @rule(inst=st.integers(0, 1), text=st.sampled_from(FAILING), entry=st.sampled_from(["c_stmt", "insn"]))
+        @rule(inst=st.integers(0, 1), text=st.sampled_from(FAILING), entry=st.sampled_from(["c_stmt", "insn", "compile_insn"]))
         def compile_failing(self, inst, text, entry):
             self._do(("fail", inst, text, entry))
             p.count("history:failing compilation")
